@@ -232,3 +232,46 @@ pub fn verif_parse(text: &str) -> (usize, u8, bool, String) {
     let norm = parser.get_normalized();
     (n, code(&parser.error_state), done, norm)
 }
+
+/// Verification hook: feed every text of `texts`, in order, to ONE [`NumericParser`], the way
+/// `rewrite_gen` reuses its parser for all numeric runs of a sentence: the parser is created
+/// once with `NumericParser::new()` and `clear()` is called before every text but the first.
+///
+/// Element `k` of the result is what [`verif_parse`] reports for `texts[k]`, computed on the
+/// shared parser: `(n, err, done, normalized)` where `n` is the index of the first rejected
+/// character (or the number of characters when all were accepted), `err` the error state
+/// (0 NONE, 1 POINT, 2 COMMA) after the last call, `done` the result of `done()` and
+/// `normalized` the rendering of the total after `done()`. When a character is rejected the
+/// element is `(n, err, false, "")` and neither `done()` nor `get_normalized()` is called for
+/// that text; the next text still starts with `clear()`.
+#[cfg(feature = "verif")]
+pub fn verif_parse_seq(texts: &[&str]) -> Vec<(usize, u8, bool, String)> {
+    fn code(e: &numeric_parser::Error) -> u8 {
+        match e {
+            numeric_parser::Error::NONE => 0,
+            numeric_parser::Error::POINT => 1,
+            numeric_parser::Error::COMMA => 2,
+        }
+    }
+    fn one(parser: &mut NumericParser, text: &str) -> (usize, u8, bool, String) {
+        let mut n = 0;
+        for c in text.chars() {
+            if !parser.append(&c) {
+                return (n, code(&parser.error_state), false, String::new());
+            }
+            n += 1;
+        }
+        let done = parser.done();
+        let norm = parser.get_normalized();
+        (n, code(&parser.error_state), done, norm)
+    }
+    let mut parser = NumericParser::new();
+    let mut out = Vec::with_capacity(texts.len());
+    for (k, text) in texts.iter().enumerate() {
+        if k > 0 {
+            parser.clear();
+        }
+        out.push(one(&mut parser, text));
+    }
+    out
+}
